@@ -217,6 +217,8 @@ class C14(CheckBase):
     prop = "C14"
     level = "exploration"
 
+    _loaded: list = []
+
     def __init__(self) -> None:
         self._exp_cache: dict[str, list] = {}
         self._dry_cache: dict[str, int] = {}
@@ -714,6 +716,7 @@ class C14(CheckBase):
             if kind == "load_render":
                 a = self.make_args(op[3], sched_box)
                 t = objs[op[1]].load(op[2])
+                self._loaded.append((op[1], op[2], t))
                 return ["ok", t.render(**a)]
             raise AssertionError(kind)
         except Exception as e:      # noqa: BLE001
@@ -1045,7 +1048,27 @@ class C14(CheckBase):
                     dict(reload, final=3)))
         _CC["active"] = {}
         _CC["overlap"] = False
+        self._loaded = []
         sched, objs, results = phase("run", pol)
+        # the same name through the same loader is the same instance - also
+        # when the first loads of it overlap, and also afterwards
+        got_: dict = {}
+        for si_, nm_, t_ in self._loaded:
+            got_.setdefault((si_, nm_), []).append(t_)
+        for (si_, nm_), ts_ in sorted(got_.items(), key=lambda kv: kv[0]):
+            try:
+                now_ = objs[si_].load(nm_)
+            except Exception:       # noqa: BLE001 - reported elsewhere
+                continue
+            if any(t_ is not now_ for t_ in ts_):
+                violations.append({
+                    "kind": "loader-identity", "sig": "loader-identity",
+                    "detail": f"{len(ts_)} concurrent / repeated loads of "
+                              f"{nm_!r} through one loader returned "
+                              f"{len({id(t_) for t_ in ts_} | {id(now_)})} "
+                              f"different instances"})
+                break
+        self._loaded = []
         owned_lists = list(self._owned)
         for step, label, op, r, oe in observer_bad[:1]:
             violations.append({
